@@ -351,9 +351,11 @@ static void marshal_one_fiber(MarshalState *st, JanetFiber *fiber, int flags) {
     int32_t j = fiber->stackstart - JANET_FRAME_SIZE;
     while (i > 0) {
         JanetStackFrame *frame = (JanetStackFrame *)(fiber->data + i - JANET_FRAME_SIZE);
-        if (frame->env) frame->flags |= JANET_STACKFRAME_HASENV;
+        /* Whether an environment follows is a property of the image, not of the live frame */
+        int32_t frameflags = frame->flags & ~JANET_STACKFRAME_HASENV;
+        if (frame->env) frameflags |= JANET_STACKFRAME_HASENV;
         if (!frame->func) janet_panicf("cannot marshal fiber with c stackframe (%v)", janet_wrap_cfunction((JanetCFunction) frame->pc));
-        pushint(st, frame->flags);
+        pushint(st, frameflags);
         pushint(st, frame->prevframe);
         int32_t pcdiff = (int32_t)(frame->pc - frame->func->def->bytecode);
         pushint(st, pcdiff);
